@@ -60,6 +60,7 @@ func gen(g *kernel.Rng, seed uint64, tier string) *kernel.Plan {
 	p.Cfg["comp"] = int64(g.Pick(4, 1))   // permessage-deflate negotiated (the stub sends no compressed message)
 	p.Cfg["appwdl"] = int64(g.Pick(4, 1)) // the application's own write deadline has already passed
 	p.Cfg["hst"] = g.OneOf(0, 0, 0, 200, 3000) // handshake timeout (ms); the session then idles longer than that before the first frame
+	p.Cfg["eofdata"] = int64(g.Pick(2, 1))     // the transport returns its last bytes together with io.EOF
 	var sizes []int64
 	if g.Bool(0.25) {
 		// short uniformly random sequences over the abstract alphabet
@@ -543,6 +544,7 @@ func run(p *kernel.Plan) (res *kernel.Result) {
 		hsOut = func() int { return pr.HsS2C }
 	}
 	underPipeIn.RSeg = int(p.C("rseg"))
+	underPipeIn.EOFData = p.C("eofdata") != 0
 	feed := func() {
 		// the stub takes over the peer's side of the transport
 		underPipeIn.NoYield = true
@@ -811,6 +813,9 @@ var Check = &kernel.Check{
 			"length-2^63":            mk(map[string]int64{"role": 1}, top),
 			"length-2^63-client":     mk(map[string]int64{"role": 0}, top),
 			// fixed: read-limit bypass by lowering the accumulated length with a huge declared continuation
+			// fixed: a frame with FIN=0 that ends the stream was delivered as a whole
+			// message when the transport returned its last bytes together with io.EOF
+			"unfinished-message-eof-with-data": mk(map[string]int64{"role": 0, "eofdata": 1, "rseg": 4}, frame(1, 0, 65530, 0)),
 			"limit-bypass-accumulate": mk(map[string]int64{"role": 1, "limit": 10}, frame(2, 0, 10, 1), wrap, frame(0, 1, 10, 5)),
 		}
 	},
